@@ -41,7 +41,7 @@ pub fn generate(rng: &mut Rng, _tier: &str) -> Scenario {
             let text = catch_unwind(AssertUnwindSafe(|| if rng_bool(&val) { toml::to_string(&w).ok() } else { toml::to_string_pretty(&w).ok() })).ok().flatten();
             if let Some(text) = text {
                 let mut sc = Scenario::new("C15", "A", ty);
-                sc.doc = Some(DocSpec { text, tree: None, spans: vec![], source: "serialized".into(), plan: None, headers: vec![] });
+                sc.doc = Some(DocSpec { text, tree: None, spans: vec![], source: "serialized".into(), plan: None, headers: vec![], header_ends: vec![] });
                 sc.fault = FaultSpec::VisEvery;
                 return sc;
             }
@@ -151,6 +151,17 @@ fn allowed_spans(root: &toml_edit::Item, f: &Fired) -> Vec<std::ops::Range<usize
         }
     };
     with_fallback(&npath, key_level, &mut allowed);
+    // A span-less node inside the payload of a tuple variant written in table form (`V = { 0.a = 1 }`):
+    // the library builds the element sequence itself, and what it builds carries no span, so the
+    // nearest location it can attach is the enum value's (as for the tuple variant's own visitor below)
+    if loc(&npath, key_level).is_none() {
+        if let Some(v) = f.path.iter().rposition(|s| matches!(s, Seg::Var(_))) {
+            let (epath, _, _) = to_path(&f.path[..v]);
+            if let Some(s) = resolve(root, &epath).and_then(|n| n.span()) {
+                out_enum_fallback(&mut allowed, s);
+            }
+        }
+    }
     // P: the innermost node on which the reader itself invoked a deserialize_* method. It differs
     // from N only for the visitor handed directly to `tuple_variant` / `struct_variant`. For a tuple
     // variant the library builds the sequence itself and attaches the enum value's span, which is
@@ -161,6 +172,12 @@ fn allowed_spans(root: &toml_edit::Item, f: &Fired) -> Vec<std::ops::Range<usize
         with_fallback(&ppath, h.in_key && !(h.key_depth == 1 && is_private_key(&f.payload)), &mut allowed);
     }
     allowed
+}
+
+fn out_enum_fallback(allowed: &mut Vec<std::ops::Range<usize>>, s: std::ops::Range<usize>) {
+    if !allowed.contains(&s) {
+        allowed.push(s);
+    }
 }
 
 /// smallest range covering all keys and values of a table-like node (recursively through span-less children)
